@@ -141,8 +141,9 @@ def oracle(ctx, obs, spans, windows):
             if badix and not bool(orc.get("index_panics")):
                 ctx.violation("S5", f"try_as_spdc returns Ok but the refractive index of {badix} is not a finite positive number [{combo}]",
                               {"kind": "nonfinite", "cause": "refractive_index"}, dict(detail, indices=r["indices"]))
-        # the repairs of F7b / F7f / F7g, where the code under test has them (flags read off the source): the outcome is an ERROR
-        fl = ctx.cov.get("repair_flags") or {}
+        # the repairs of F7b / F7f / F7g are in the code: the outcome is an ERROR (rules stated whatever the source-derived flags say:
+        # a flag that flips back is reported here with the concrete configuration, besides the broken obligation C17_repairs_now)
+        fl = {"validates_crystal": True, "external_range": True, "total_reflection": True}
         if fl.get("validates_crystal") and bool(orc.get("index_panics")) and not k["ls_le_lp"] and r["class"] != "err":
             ctx.violation("S5", f"a crystal whose expressions cannot be evaluated is not rejected (outcome {r['class']})",
                           {"kind": "rule_bad_crystal"}, detail)
@@ -171,6 +172,19 @@ def oracle(ctx, obs, spans, windows):
         nm = o["shadow"]["oracles"].get("nm_period")
         if k["pp"] == "auto" and nm is not None and not k["ls_le_lp"] and f64_of_hex(nm) > k["length_m"] and r["class"] == "ok":
             ctx.violation("S5", "automatic poling period longer than the crystal is accepted", {"kind": "rule_impossible_period"}, detail)
+        # ... independently of the search: for a COLLINEAR signal the period that phase-matches is 2 pi / |delta k_z| of the unpoled
+        # crystal (closed form, C04_collinear_root); if that is longer than the crystal (by more than the 1 um zone of the known C04
+        # finding F4b) the automatic period cannot phase-match within the crystal and the outcome has to be the error
+        dk0 = o["shadow"]["oracles"].get("dkz0")
+        if k["pp"] == "auto" and dk0 is not None and not k["ls_le_lp"] and sg0["theta_deg"] is not None and f64_of_hex(sg0["theta_deg"]) == 0.0 \
+                and sg0["theta_external_deg"] is None and not k["theta_auto"] and f64_of_hex(dk0) != 0.0:
+            need = 2 * 3.141592653589793 / abs(f64_of_hex(dk0))
+            ctx.count("collinear_period_vs_length:" + ("longer" if need > k["length_m"] else "fits"))
+            if need > k["length_m"] + 1.5e-6 and r["class"] == "ok":
+                got = f64_of_hex(r["setup"]["pp"]["period"]) if r["setup"]["pp"].get("on") else None
+                ctx.violation("S5", f"automatic poling period accepted (period {got!r} m) although the crystal ({k['length_m']!r} m) is shorter than the "
+                              f"period that phase-matches ({need!r} m = 2 pi / |delta k_z|, collinear signal)",
+                              {"kind": "rule_impossible_period", "cause": "collinear_root_beyond_length"}, detail)
         # the JSON entry point must behave like try_as_spdc
         fj = o["from_json"]
         if fj["class"] != r["class"] or (fj["class"] == "ok" and not fj.get("same")):
@@ -457,12 +471,11 @@ def run(ctx):
         "lambda_s <= lambda_p is an error": "proved for every configuration (C17_rule_signal_le_pump: the entry validation read off the source by the generator) + validated in every auto/explicit combination",
         "an explicit poling period of 0 is an error": "proved (C17_rule_bad_period) + validated",
         "auto poling period that does not fit is an error": "proved (rule on the simplex result) + validated with the replayed search",
-        "never panics": "proved PER CONFIGURATION under searches_defined_at (the oracle calls this configuration makes are defined); for the composed "
-                        "model under three named definedness hypotheses (no total internal reflection when the crystal angle is automatic; every "
-                        "candidate of the angle / period search has a defined cost) which are FALSE on the known findings F7b, F7f, F7h: there the "
-                        "composed model panics like the implementation (C17_tir_panics_composed, Findings/C17_F7b_composed.v); the only panic "
-                        "site left in the model is the search's unwrap; panic sites scanned over the whole call graph; F7g (unevaluable crystal "
-                        "expression) is outside the model and found by the stream",
+        "never panics": "proved on the repaired code (C17_repairs_now pins the four repair flags): C17_no_panic_full assumes only that the Snell "
+                        "inverse answers and that the crystal-angle search answers for a signal whose external angle exists; a signal beyond total "
+                        "internal reflection, an external angle >= 90 deg, a period search that finds nothing and an unevaluable crystal expression "
+                        "are ERRORS (rules 6, 7, 4', S5 rule_bad_crystal); composed model: C17_no_panic_composed_full; the panic sites are scanned "
+                        "over the whole call graph; reverting a repair gives a concrete-input violation",
         "all derived values finite / period infinite only when poling off": "proved_partial (per configuration: idler angle defined, index along z not 0, unpoled mismatch not exactly 0) + validated incl. the three refractive indices",
         "spectrum/rate/HOM calls finite": "validated_only (in-window 3x3 / 5x5 grids, three integrators, on constructed setups; normalised spectrum included; known: F7d, F7e)"}
     return finish(ctx, assumptions=[
